@@ -21,7 +21,10 @@ CONSTANTS Role,
           WProgs,      \* set of programs of the message writer: sequences of [api, type, n, dl]
           KProgs,      \* set of pairs << K1 program, K2 program >> : sequences of [api |-> "WC", type, n, dl]
           RProgs,      \* set of sequences of reader-triggered replies [type, n]
-          FaultAts     \* set of transport-op indices at which one fault is injected (0 = none)
+          FaultAts,    \* set of transport-op indices at which one fault is injected (0 = none)
+          KeepSched,   \* record the schedule history (FALSE in the liveness config: no VIEW there)
+          MultiQ       \* TRUE: any number of threads may block on the lock (liveness config);
+                       \* FALSE: at most one (schedules that the harness can replay deterministically)
 
 Threads == {"W", "K1", "K2", "R"}
 
@@ -46,7 +49,7 @@ Init ==
 
 Cur(t)  == progs[t][ip[t]]
 More(t) == ip[t] <= Len(progs[t])
-Log(t, s) == sched' = Append(sched, [t |-> t, s |-> s])
+Log(t, s) == sched' = IF KeepSched THEN Append(sched, [t |-> t, s |-> s]) ELSE sched
 
 DL(t) == IF t = "R" THEN "auto" ELSE IF t = "W" THEN mon.dl ELSE Cur(t).dl
 
@@ -118,7 +121,7 @@ Acquire(t) ==
 
 (* go and block on a held lock; at most one thread is queued (replayability) *)
 Enqueue(t) ==
-  /\ pc[t] = "L" /\ lock # "" /\ \A u \in Threads : pc[u] # "Q"
+  /\ pc[t] = "L" /\ lock # "" /\ (MultiQ \/ \A u \in Threads : pc[u] # "Q")
   /\ pc' = [pc EXCEPT ![t] = "Q"]
   /\ Log(t, "block") /\ UNCHANGED << mon, lock, err, ip, seen, progs, nops, faultAt, wmsg >>
 
